@@ -492,6 +492,7 @@ type c09Case struct {
 	respExtra string
 	cc        []string
 	expires   bool
+	expEmpty  bool // the Expires field is present with an empty value (RFC 7234 section 5.3: an invalid date still is an Expires field)
 	status    int
 	ctype     bool
 	sigs      []c09Sig
@@ -612,7 +613,9 @@ func c09Build(cs *c09Case, seed int64) (*signedexchange.Exchange, []string, erro
 	for _, v := range cs.cc {
 		respH.Add("Cache-Control", v)
 	}
-	if cs.expires {
+	if cs.expires && cs.expEmpty {
+		respH["Expires"] = []string{""}
+	} else if cs.expires {
 		respH.Set("Expires", c09ExpiresLine)
 	}
 	e := signedexchange.NewExchange(ver, cs.reqURL, method, reqH, cs.status, respH, pattern(40, seed))
@@ -743,7 +746,7 @@ func c09Describe(cs *c09Case) string {
 			fmt.Fprintf(&b, "[Accept %s]", cs.reqExtra)
 		}
 	}
-	fmt.Fprintf(&b, " status=%d content-type=%v expires-header=%v cache-control=%q extra-response-header=%q", cs.status, cs.ctype, cs.expires, cs.cc, cs.respExtra)
+	fmt.Fprintf(&b, " status=%d content-type=%v expires-header=%v (empty value: %v) cache-control=%q extra-response-header=%q", cs.status, cs.ctype, cs.expires, cs.expEmpty, cs.cc, cs.respExtra)
 	for i, s := range cs.sigs {
 		fmt.Fprintf(&b, " | sig%d: t=%d.%09d date=%d expires=%d (%s) validity-url=%q integrity=%q", i, c09T0, s.tm.nsec, c09T0-s.tm.d, c09T0+s.tm.x, s.tm.name, s.validity, s.integrity)
 		if s.wrongKey {
@@ -864,9 +867,9 @@ func c09VerifyRun(alpha func(c *mc.Ctx) *c09Alphabet) func(c *mc.Ctx) {
 		k = dev(len(a.ccs), "cache-control")
 		cs.cc = a.ccs[k]
 		note(k, "cc="+c09CCKey(cs.cc))
-		k = dev(2, "expires-header")
-		cs.expires = k == 1
-		note(k, "expires-header")
+		k = dev(3, "expires-header")
+		cs.expires, cs.expEmpty = k >= 1, k == 2
+		note(k, []string{"", "expires-header", "expires-header-empty"}[k])
 		k = dev(len(a.statuses), "status")
 		cs.status = a.statuses[k]
 		note(k, "status="+strconv.Itoa(cs.status))
@@ -914,13 +917,16 @@ func c09StorableRun(c *mc.Ctx) {
 	cc := c09CC(tokens, mask, style, rev, multi)
 	ccKey := c09CCKey(cc)
 	c.State([]byte(ccKey))
-	for _, exp := range []bool{false, true} {
+	for _, expState := range []string{"false", "true", "empty-value"} {
+		exp := expState != "false"
 		h := http.Header{"Content-Type": {"text/html"}}
 		for _, v := range cc {
 			h.Add("Cache-Control", v)
 		}
-		if exp {
+		if expState == "true" {
 			h.Set("Expires", c09ExpiresLine)
+		} else if exp {
+			h["Expires"] = []string{""} // present, invalid date: still "contains an Expires header field"
 		}
 		for status := 100; status <= 599; status++ {
 			e := &signedexchange.Exchange{Version: version.Version1b3, RequestURI: c09ReqURLs[0], RequestMethod: "GET", ResponseStatus: status, ResponseHeaders: h}
@@ -931,20 +937,20 @@ func c09StorableRun(c *mc.Ctx) {
 			c.Outcome("ref=" + why + " impl=" + strconv.FormatBool(got))
 			input := fmt.Sprintf("1b3 status=%d Cache-Control=%q (%d field value(s)) Expires-present=%v", status, cc, len(cc), exp)
 			if pan != nil {
-				c.Fail(fmt.Sprintf("C09/storable-panic:%s:status=%d:expires=%v", ccKey, status, exp), "IsCacheable panicked", input, fmt.Sprintf("storable=%v (%s)", want, why), fmt.Sprint(pan))
+				c.Fail(fmt.Sprintf("C09/storable-panic:%s:status=%d:expires=%v", ccKey, status, expState), "IsCacheable panicked", input, fmt.Sprintf("storable=%v (%s)", want, why), fmt.Sprint(pan))
 				continue
 			}
 			if got == want {
 				continue
 			}
-			key := fmt.Sprintf("C09/storable:%s:status=%d:expires=%v", ccKey, status, exp)
+			key := fmt.Sprintf("C09/storable:%s:status=%d:expires=%v", ccKey, status, expState)
 			what := "IsCacheable judges a response storable by a shared cache that RFC 7234 section 3 forbids to store"
 			if want {
 				what = "IsCacheable judges a response not storable that RFC 7234 section 3 allows a shared cache to store"
 			}
 			if len(cc) > 1 {
 				if first, _ := refpolicy.Storable(status, cc[:1], exp); first == got {
-					key = fmt.Sprintf("C09/cachecontrol-multivalue:%s:status=%d:expires=%v", ccKey, status, exp)
+					key = fmt.Sprintf("C09/cachecontrol-multivalue:%s:status=%d:expires=%v", ccKey, status, expState)
 					what = "multi-valued Cache-Control: the verdict follows the first field value only"
 				}
 			}
